@@ -9,6 +9,7 @@ mod fsmodel;
 mod link;
 mod path;
 mod crc;
+mod daemon;
 mod codec;
 mod rng;
 mod segments;
@@ -42,6 +43,7 @@ fn main() {
                 "recv" => txgen::gen_recv(seed, tier, &mut w, &mut stats),
                 "send" => txgen::gen_send(seed, tier, &mut w, &mut stats),
                 "link" => link::gen(seed, tier, &mut w, &mut stats),
+                "daemon" => daemon::gen(seed, tier, &mut w, &mut stats),
                 "checksum" => checksum::gen(seed, tier, &mut w, &mut stats),
                 "path" => path::gen(seed, tier, &mut w, &mut stats),
                 "udp" => udp::gen(seed, tier, &mut w, &mut stats),
@@ -64,6 +66,13 @@ fn main() {
                 "recv" => tx::run(&ops, true, &mut out, &mut orc),
                 "send" => tx::run(&ops, false, &mut out, &mut orc),
                 "link" => link::run(&ops, &mut out, &mut orc),
+                "daemon" => {
+                    // the handler calls actually made (with the run-time facts routing depends on) are
+                    // what the model driver replays
+                    let mut ev = BufWriter::new(fs::File::create(format!("{outdir}/events.ops")).unwrap());
+                    daemon::run(&ops, &mut out, &mut orc, &mut ev);
+                    ev.flush().unwrap();
+                }
                 "checksum" => checksum::run(&ops, &mut out, &mut orc),
                 "path" => path::run(&ops, &mut out, &mut orc),
                 "udp" => udp::run(&ops, &mut out, &mut orc),
